@@ -91,6 +91,7 @@ class BootStub:
         self.symbolic_rows = symbolic_rows  # None = every outstanding unit has symbolic margin draws
         self.state = None
         self.models = []
+        self.inputs = []  # (reporting, nonreporting) frames handed to the bootstrap core, per call
 
     def install(self):
         from elexmodel.models.BootstrapElectionModel import BootstrapElectionModel as BEM
@@ -100,6 +101,7 @@ class BootStub:
 
         def compute(model, reporting_units, nonreporting_units, unexpected_units):
             n_test = nonreporting_units.shape[0]
+            stub.inputs.append((reporting_units.copy(), nonreporting_units.copy()))
             st = stub.state
             if st is None or st["n_test"] != n_test:
                 st = stub.state = stub.fresh(n_test)
